@@ -142,7 +142,7 @@ def mutation_history(rec, rng, fac, kn, steps=12):
     for t in trees:
         query_all(t, rng, kn == "expr")
     for _ in range(steps):
-        op = rng.choice(["rotate", "move", "wrap", "swap", "detach"])
+        op = rng.choice(["rotate", "rotate", "rotate", "move", "wrap", "swap", "swap", "detach"])
         a = rng.choice(trees)
         nodes = S.nodes_preorder(a)
         n = rng.choice(nodes)
